@@ -574,7 +574,10 @@ def run_bins_direct(ctx):
     n_obs, n_ch, n_t = int(rng.integers(1, 5)), int(rng.integers(1, 4)), int(rng.integers(3, 9))
     tu = [int(v) for v in rng.permutation(n_t) + 1] if rng.integers(2) else list(range(1, n_t + 1))
     m = np.array([[[1e4 * (o + 1) + 1e2 * (c + 1) + t for t in tu] for c in range(n_ch)] for o in range(n_obs)], dtype=float)
-    ds = TemporalDataset(m.reshape(n_obs, n_ch, n_t), obs_descriptors={'ouid': list(range(1, n_obs + 1))},
+    # the id-coded values are whole numbers: half of the datasets store them in an integer array (a bin mean such as
+    # (t1 + t2) / 2 is then not a whole number -- binned values are means, whatever the storage of the input)
+    stored = m.reshape(n_obs, n_ch, n_t).astype(np.int64) if rng.integers(2) else m.reshape(n_obs, n_ch, n_t)
+    ds = TemporalDataset(stored, obs_descriptors={'ouid': list(range(1, n_obs + 1))},
                          channel_descriptors={'cuid': list(range(1, n_ch + 1))},
                          time_descriptors={'time': np.array([t * 0.25 for t in tu])})
     kind = gen.pick(rng, ['interleaved', 'gaps', 'random'])
@@ -654,6 +657,21 @@ def run_close_labels(ctx):
         if not expect('subset_time', np.asarray(tds.subset_time('time', tval[a], tval[b]).measurements), m[:, :, a:b + 1],
                       'time range'):
             return
+        # DataFrame round trip without naming the channels, for measurements stored in half, single or double precision
+        # (values exactly representable in all three): the channel columns are the floating-point columns
+        for dt in (np.float16, np.float32, np.float64):
+            small = (8.0 * np.arange(1, n_obs + 1)[:, None] + np.arange(1, n_ch + 1)[None, :]).astype(dt)
+            d0 = Dataset(small.copy(), obs_descriptors={'ouid': list(range(1, n_obs + 1))},
+                         channel_descriptors={'name': [f'ch{c}' for c in range(n_ch)]})
+            back = Dataset.from_df(d0.to_df())
+            ctx.case('df_roundtrip', dict(sig, arg=f'auto_channels_{np.dtype(dt).name}'))
+            if back.measurements.shape != small.shape or not np.array_equal(np.asarray(back.measurements, dtype=float),
+                                                                             small.astype(float)) or \
+                    [int(v) for v in back.obs_descriptors.get('ouid', [])] != list(range(1, n_obs + 1)):
+                ctx.fail('df_roundtrip', dict(sig, what='from_df', arg=f'auto_channels_{np.dtype(dt).name}'),
+                         f'from_df(to_df(ds)) of {np.dtype(dt).name} measurements: shape {back.measurements.shape}, '
+                         f'expected {small.shape}; descriptors {sorted(back.obs_descriptors)} / {sorted(back.descriptors)}', wit())
+                return
         parts = flat.split_obs('onset')
         ctx.case('split_obs', dict(sig, arg='onset'))
         if len(parts) != n_obs or any(p.n_obs != 1 for p in parts):
